@@ -182,3 +182,18 @@ Fixpoint run_here (s : str) : nat :=
   match s with c :: r => if is_digit c then S (run_here r) else O | [] => O end.
 Fixpoint max_run (s : str) : nat :=
   match s with [] => O | _ :: r => Nat.max (run_here s) (max_run r) end.
+
+(** * UTF-8 bytes ([str::as_bytes]) and character-wise padding *)
+
+(** the UTF-8 encoding of one scalar value *)
+Definition utf8_cp (c : Z) : list Z :=
+  if c <? 128 then [c]
+  else if c <? 2048 then [192 + c / 64; 128 + c mod 64]
+  else if c <? 65536 then [224 + c / 4096; 128 + (c / 64) mod 64; 128 + c mod 64]
+  else [240 + c / 262144; 128 + (c / 4096) mod 64; 128 + (c / 64) mod 64; 128 + c mod 64].
+(** [s.as_bytes()] *)
+Definition utf8 (s : str) : list Z := flat_map utf8_cp s.
+
+(** [s.chars().chain(std::iter::repeat('0')).take(n).collect::<String>()]: the first [n]
+    characters of [s] followed by as many '0' as needed *)
+Definition take_pad (n : nat) (s : str) : str := firstn n (s ++ repeat 48 n).
